@@ -507,7 +507,32 @@ def members_follow_group_name(ctx: Ctx, rep: Report, rid: str = "R13.9") -> None
         n += 1
         rep.instance()
         resets = [x for x in own_nodes(f.node) if isinstance(x, ast.Assign) and any(isinstance(t, ast.Attribute) and src(t.value) == "self" and t.attr.lstrip("_") == "items" for t in x.targets) and isinstance(x.value, (ast.List, ast.Call)) and not getattr(x.value, "elts", None) and not getattr(x.value, "args", None)]
+        narrowed = None
         if resets:
+            # the reset depends on the name comparison alone: `if self._addrgroup and new != self._addrgroup` keeps the
+            # members whenever the old name is empty - and the host / prefix / wildcard readers empty the name but keep the
+            # members, so group A -> `host ...` -> group B leaves A's members under B's name (seed C13-r7-1).  Judged only
+            # in that shape: an `and` of the name comparison with the bare old name, while a sibling reader stores an
+            # empty group name without touching the members.
+            def old_name(e: ast.AST) -> bool:
+                return isinstance(e, ast.Attribute) and src(e.value) == "self" and e.attr.lstrip("_") == "addrgroup"
+
+            par = getattr(resets[0], "_parent", None)
+            while par is not None and par is not f.node and narrowed is None:
+                if isinstance(par, ast.If) and isinstance(par.test, ast.BoolOp) and isinstance(par.test.op, ast.And) and any(resets[0] is z for b in par.body for z in ast.walk(b)):
+                    vals = par.test.values
+                    if any(isinstance(v, ast.Compare) and any(old_name(y) for y in ast.walk(v)) for v in vals) and any(old_name(v) for v in vals):
+                        siblings = [g for c_ in f.cls.mro for g in c_.methods.values() if g is not f and g.name.startswith("_line")]
+                        for g in siblings:
+                            clears_name = any(isinstance(x, ast.Assign) and any(old_name(t) for t in x.targets) and isinstance(x.value, ast.Constant) and x.value.value == "" for x in own_nodes(g.node))
+                            touches_items = any(isinstance(x, ast.Attribute) and isinstance(x.ctx, ast.Store) and src(x.value) == "self" and x.attr.lstrip("_") == "items" for x in own_nodes(g.node))
+                            if clears_name and not touches_items:
+                                narrowed = (par, g)
+                                break
+                par = getattr(par, "_parent", None)
+        if narrowed is not None:
+            rep.violation(f.qualname, snippet(narrowed[0].test, 60), f"the members are dropped only when the OLD group name is not empty: {narrowed[1].qualname} empties the name and keeps the members, so an address read as group A, then as a host, then as group B is judged by the members of A under the name of B", where(f, narrowed[0]), inp="a = Address('object-group A', items=[...]); a.line = 'host 10.0.0.1'; a.line = 'object-group B'; a.items still A's")
+        elif resets:
             rep.ok(f"{f.qualname}", f"a new group name empties the members ({snippet(resets[0], 30)})", where=where(f, resets[0]))
         else:
             rep.violation(f.qualname, "self._addrgroup = <new name>", "the address is re-read under another group name but keeps the member list of the old group: every containment and shadow answer about it is given for the wrong members", where(f), inp="a = Address('object-group G', items=['10.0.0.0 0.0.255.255']); a.line = 'object-group H'; Address('host 10.0.0.5').subnet_of(a) is True")
